@@ -414,7 +414,8 @@ package utreexo
 
 //@ func RestorePollardFrom(r io.Reader) (n int64, p *Pollard, err error)
 //@   ensures err == nil ==> allFull
-//@   loop 1: invariant allFull
+//@   loop 1: invariant allFull && len(p.Roots) == iterlen_1
 
 //@ func (p *Pollard) readOne(n *polNode, r io.Reader) (cnt int64, err error)
 //@   ensures err == nil ==> allFull
+//@   ensures len(p.Roots) == old(len(p.Roots))
